@@ -1,0 +1,81 @@
+//go:build verif
+
+package forward
+
+// Machine-checked contracts for /verif (govc). Comment-only: compiled only with -tags verif, adds no code.
+
+// C39: the handler list mirrors the configured destinations, position by position; a reload keeps the
+// handler object of every unchanged position untouched, creates (and starts, when started) a new handler
+// for every new or changed position, and stops exactly the replaced and removed handlers.
+
+//@ func (m *Manager) createDestHandler
+//@   property C39
+//@   modifies nothing
+//@   ensures result != nil && fresh(result)
+//@   ensures result.Pos == pos && result.Conf == conf && result.Parent == m
+
+//@ func (m *Manager) Initialize
+//@   property C39
+//@   loop 1 invariant 0 <= _i && _i <= len(m.Forward) && len(m.destHandlers) == _i && fresh(m.destHandlers)
+//@   loop 1 invariant forall(k, 0, _i, m.destHandlers[k] != nil && fresh(m.destHandlers[k]) && m.destHandlers[k].Conf == old(m.Forward)[k] && m.destHandlers[k].Pos == k+1)
+//@   ensures [one-per-destination] len(m.destHandlers) == len(old(m.Forward))
+//@   ensures [in-configuration-order] forall(k, 0, len(m.destHandlers), m.destHandlers[k] != nil && m.destHandlers[k].Conf == old(m.Forward)[k] && m.destHandlers[k].Pos == k+1)
+
+//@ func (m *Manager) Start
+//@   property C39
+//@   assert-call start: strm == caller_strm && exists(k, 0, len(old(m.destHandlers)), old(m.destHandlers)[k] == h)
+//@   loop 1 invariant 0 <= _i && _i <= len(m.destHandlers) && called(start) == _i && m.destHandlers == old(m.destHandlers)
+//@   ensures [started] m.started && m.stream == strm
+//@   ensures [every-destination-started] called(start) == len(old(m.destHandlers))
+
+//@ func (m *Manager) Stop
+//@   property C39
+//@   assert-call stop: exists(k, 0, len(old(m.destHandlers)), old(m.destHandlers)[k] == h)
+//@   loop 1 invariant 0 <= _i && _i <= len(m.destHandlers) && called(stop) == _i && m.destHandlers == old(m.destHandlers)
+//@   ensures [stopped] !m.started
+//@   ensures [every-destination-stopped] called(stop) == len(old(m.destHandlers))
+
+//@ func (m *Manager) ReloadConf
+//@   property C39
+//@   requires forall(k, 0, len(m.destHandlers), m.destHandlers[k] != nil)
+//@   def prev() []*DestHandler = m.destHandlers
+//@   def pv(k int) *DestHandler = m.destHandlers[k]
+//@   def changed(k int) bool = k >= len(forward) || m.destHandlers[k].Conf != forward[k]
+//@   def cc(k int) int = rec 0 ; cc(k) + b2i(changed(k))
+//@   lemma ccBounds(a int) induction a from 0: cc(a) >= 0 && cc(a) <= a
+//@   lemma ccMono(a int, b int) induction b from a: cc(a) <= cc(b)
+//@   def nn(k int) int = rec 0 ; nn(k) + b2i(k >= len(m.destHandlers) || changed(k))
+//@   assert-call start: fresh(h) && h == destHandler && strm == m.stream && m.started
+//@   assert-call stop: old(m.started) && h == toClose[called(stop) - 1]
+//@   loop 1 invariant 0 <= _i && _i <= len(forward) && len(newHandlers) == len(forward) && fresh(newHandlers) && (isnil(toClose) || fresh(toClose))
+//@   loop 1 invariant disjoint(toClose, newHandlers)
+//@   loop 1 invariant m.destHandlers == prev() && m.started == old(m.started) && m.stream == old(m.stream) && called(stop) == 0
+//@   loop 1 invariant !old(m.started) ==> called(start) == 0
+//@   loop 1 invariant old(m.started) ==> called(start) == nn(_i)
+//@   loop 1 invariant forall(k, 0, len(prev()), m.destHandlers[k] == pv(k))
+//@   loop 1 invariant forall(k, 0, _i, newHandlers[k] != nil && newHandlers[k].Conf == forward[k])
+//@   loop 1 invariant forall(k, 0, _i, k < len(prev()) && !changed(k) ==> newHandlers[k] == pv(k))
+//@   loop 1 invariant forall(k, 0, _i, k >= len(prev()) || changed(k) ==> fresh(newHandlers[k]) && newHandlers[k].Pos == k+1)
+//@   loop 1 invariant len(toClose) == cc(min(_i, len(prev())))
+//@   loop 1 invariant forall(k, 0, min(_i, len(prev())), changed(k) ==> toClose[cc(k)] == pv(k))
+//@   loop 2 invariant len(forward) <= i
+//@   loop 2 invariant (i <= len(prev()) || i == len(forward))
+//@   loop 2 invariant (isnil(toClose) || fresh(toClose))
+//@   loop 2 invariant m.destHandlers == prev()
+//@   loop 2 invariant called(stop) == 0 && (old(m.started) ==> called(start) == nn(len(forward))) && (!old(m.started) ==> called(start) == 0)
+//@   loop 2 invariant len(newHandlers) == len(forward) && disjoint(toClose, newHandlers)
+//@   loop 2 invariant forall(k, 0, len(forward), newHandlers[k] != nil && newHandlers[k].Conf == forward[k])
+//@   loop 2 invariant forall(k, 0, len(forward), k < len(prev()) && !changed(k) ==> newHandlers[k] == pv(k))
+//@   loop 2 invariant forall(k, 0, len(forward), k >= len(prev()) || changed(k) ==> fresh(newHandlers[k]) && newHandlers[k].Pos == k+1)
+//@   loop 2 invariant forall(k, 0, len(prev()), m.destHandlers[k] == pv(k))
+//@   loop 2 invariant len(toClose) == cc(min(i, len(prev())))
+//@   loop 2 invariant forall(k, 0, min(i, len(prev())), changed(k) ==> toClose[cc(k)] == pv(k))
+//@   loop 3 invariant 0 <= _i && _i <= len(toClose) && called(stop) == _i && (old(m.started) ==> called(start) == nn(len(forward)))
+//@   ensures [one-per-destination] len(m.destHandlers) == len(forward)
+//@   ensures [in-configuration-order] forall(k, 0, len(forward), m.destHandlers[k] != nil && m.destHandlers[k].Conf == forward[k])
+//@   ensures [unchanged-kept-untouched] forall(k, 0, min(len(forward), len(prev())), !changed(k) ==> m.destHandlers[k] == pv(k))
+//@   ensures [new-ones-are-new] forall(k, 0, len(forward), k >= len(prev()) || changed(k) ==> fresh(m.destHandlers[k]) && m.destHandlers[k].Pos == k+1)
+//@   ensures [replaced-and-removed-listed-exactly] len(toClose) == cc(len(prev())) && forall(k, 0, len(prev()), changed(k) ==> toClose[cc(k)] == pv(k))
+//@   ensures [new-ones-started-when-started] old(m.started) ==> called(start) == nn(len(forward))
+//@   ensures [listed-ones-stopped-when-started] old(m.started) ==> called(stop) == len(toClose)
+//@   ensures [nothing-started-or-stopped-when-not-started] !old(m.started) ==> called(stop) == 0 && called(start) == 0
